@@ -103,7 +103,7 @@ def post_facts(an, site_block, site_idx):
         atoms = set()
         for c in cs:
             atoms |= an.mutable_atoms(c)
-        atoms = {a for a in atoms if not a.startswith('P:' + pay)}
+        atoms = {a for a in atoms if pay not in a}        # facts *about* the payload are not invalidated by the binding that creates it
         if atoms and not an.stable_between(atoms, ('def', cb, None), (site_block, site_idx)):
             continue
         out.extend(cs)
@@ -218,7 +218,18 @@ def post_parse_pointer(an, cb, t, pay):
     return out
 
 
+def post_rdata_read(an, cb, t, pay):
+    # Rdata::read(class, type, message, cursor, rdlength) = Ok(_)  =>  cursor + rdlength <= len(message)
+    L = _len_of_arg(an, t['args'][2])
+    cur = an.ev_op(t['args'][3])
+    rd = an.ev_op(t['args'][4])
+    if L is None or cur is None or rd is None:
+        return []
+    return [le(add(cur, rd), L)]
+
+
 POSTS = {
+    'rr::rdata::Rdata::read': post_rdata_read,
     'name::wire::parse_pointer': post_parse_pointer,
     'name::Name::try_from_compressed': post_parse_name,
     'name::wire::parse_compressed_name': post_parse_name,
@@ -293,7 +304,8 @@ PRES = {}
 def inv_reader(an, sp):
     L = 'len:(*%s.octets)' % sp
     C = 'P:%s.cursor' % sp
-    return [le(lin(c=12), lin(L)), le(lin(C), lin(L))], {C: 'cursor'}
+    M = 'P:(%s.mark as Some).0' % sp
+    return [le(lin(c=12), lin(L)), le(lin(C), lin(L)), le(lin(M), lin(L))], {C: 'cursor'}
 
 
 def inv_peek(an, sp):
@@ -657,3 +669,42 @@ def check_pres(R, F, S, rule, scope=None):
                         why = 'cannot prove %s' % '; '.join(fmt(g) + ' <= 0' for g in goals)
                     R.require(ok, rule, '%s|pre:%s@%s#%d' % (gp, desc, fn.gpath, k), fn.where(b), 'call establishes %s' % desc, 'call of %s does not establish its precondition %s: %s' % (gp, desc, why))
     return n
+
+
+# ------------------------------------------------------------------ struct invariants: establishment and preservation
+def struct_literals(F, sty, scope=None):
+    out = []
+    for fn in F.fns.values():
+        if fn.crate != 'quandary' or '::tests::' in fn.gpath or (scope and not scope(fn)):
+            continue
+        for b, blk in enumerate(fn.blocks):
+            if blk['cleanup']:
+                continue
+            for i, st in enumerate(blk['stmts']):
+                if st['k'] == 'assign' and st['rv']['k'] == 'agg' and st['rv'].get('ak') == 'adt' and st['rv']['def'] == sty:
+                    out.append((fn, b, i, st))
+    return out
+
+
+def field_stores(F, sty, field, scope=None):
+    """[(fn, block, idx, stmt)] assignments to <sty>.field through any place."""
+    from qv import effects
+    out = []
+    for fn in F.fns.values():
+        if fn.crate != 'quandary' or '::tests::' in fn.gpath or (scope and not scope(fn)):
+            continue
+        for b, blk in enumerate(fn.blocks):
+            if blk['cleanup']:
+                continue
+            for i, st in enumerate(blk['stmts']):
+                if st['k'] == 'assign' and st['lhs']['p']:
+                    ch = effects.place_field_chain(fn, fn.canon(st['lhs']))
+                    if ch and ch[-1] == (sty, field):
+                        out.append((fn, b, i, st))
+    return out
+
+
+def prove_at(an, b, i, goals):
+    ok, facts, res = an.prove(b, i, goals)
+    unmet = '; '.join(fmt(g) + ' <= 0' for g, r in zip(goals, res) if not r)
+    return ok, unmet
